@@ -164,6 +164,7 @@ def unit_nldf_lengths(version):
                                 if counter[0] % stride:
                                     continue
                                 lab = "%s[%s,%s,l0=%s,l1=%s,dots=%s,j=%s]" % (cls[-2:], level, rm, l0, l1, dots, jspecs)
+                                it.stmt_budget = 2000000      # the interpreter's runaway guard is per constructor call, not per enumeration
                                 r = check_lengths(ctx, lab, it, lambda: it.call(m.ns[cls], list(args), {}), fq)
                                 if r.startswith("rejected"):
                                     ctx.bounded(lab + ".valid-arguments-accepted", False, BOUND, "valid arguments were rejected: " + r)
@@ -438,31 +439,60 @@ def unit_reject_plans(ctx):
         all_raise(ctx, "%s lambd<=1 rejected" % kind, it, [tm.mk_lt(tm.ZERO, a), tm.mk_le(l, tm.ONE)], lambda: it.call(P, [st2, 1, a, l, 4], {}), fq)
         for nalpha in (0, -1, Q(3, 2)):
             all_raise(ctx, "%s nalpha=%r rejected" % (kind, nalpha), it, good, lambda: it.call(P, [st2, 1, a, l, nalpha], {}), fq)
-    # exponent beyond the interpolation range
+    # exponent beyond the interpolation range (both ways of laying out the control exponents)
     hyps = []
     stt = make_settings(it, "j", "MGGA", "one", hyps)
     RC = tm.var("rhocut")
     hyps.append(tm.mk_lt(tm.ZERO, RC))
-    plan = make_plan(it, stt, 1, nalpha=2, hyps=hyps, rhocut=RC, raise_large_expnt_error=True)
     rho, sigma, tau = sym_array("rho", (NS,)), sym_array("sigma", (NS,)), sym_array("tau", (NS,))
-    amax = it.getattr(plan, "alphas")[1]
-    fq = [PMOD + ":NLDFAuxiliaryPlan.eval_feat_exp"]
+    fq = [PMOD + ":NLDFAuxiliaryPlan.eval_feat_exp", PMOD + ":NLDFAuxiliaryPlan.__init__"]
     # the exponent routine is under its own contract (C03/C07/C08): here it is an arbitrary array a(rho, sigma, tau)
     avars = sym_array("a", (NS,))
 
     def exponent_contract(interp, f, args, kwargs):
         return (avars.copy(), sym_array("dadn", (NS,)), sym_array("dads", (NS,)), sym_array("dadt", (NS,)))
     it.overrides[SMOD + ":get_cider_exponent"] = exponent_contract
-    for i in (-1, 0, 1):
-        hy = hyps + [tm.mk_lt(RC, rho[1]), tm.mk_lt(amax, avars[1])]
-        all_raise(ctx, "eval_feat_exp[i=%d]: exponent above max(alphas) at rho > rhocut raises RuntimeError" % i, it, hy,
-                  lambda: it.call_method(plan, "eval_feat_exp", [(rho.copy(), sigma.copy(), tau.copy())], {"i": i}), fq, allowed=("RuntimeError",))
-        # and conversely: all exponents within range => no error (the check is not over-eager)
-        hy2 = hyps + [tm.mk_le(avars[g], amax) for g in range(NS)]
-        it.hyps = list(hy2)
-        ps = all_paths(it, lambda: it.call_method(plan, "eval_feat_exp", [(rho.copy(), sigma.copy(), tau.copy())], {"i": i}))
-        okp = all(p[0] == "return" or smt.check_sat(hy2 + p[2], ctx.timeout)[0] == "unsat" for p in ps)
-        ctx.holds("eval_feat_exp[i=%d]: exponents within range are accepted" % i, okp, "", fq)
+    for formula in ("etb", "zexp"):
+        hyps_f = list(hyps)
+        plan = make_plan(it, stt, 1, nalpha=3, hyps=hyps_f, rhocut=RC, raise_large_expnt_error=True, alpha_formula=formula)
+        alphas = [tm.lift(x) for x in it.getattr(plan, "alphas")]
+        # the interpolation range is [alphas[0], alphas[-1]]: specification of the two layouts (docstring of NLDFAuxiliaryPlan.__init__)
+        a0_, l_ = tm.var("alpha0"), tm.var("lambd")
+        for j in range(3):
+            want = a0_ * l_ ** j if formula == "etb" else a0_ * (l_ ** j - 1) / (l_ - 1)
+            if formula == "zexp" and j == 0:
+                continue          # clamped to a small positive number by get_q2a (documented there), not 0
+            ctx.equal("plan[%s]: control exponent %d follows the documented formula" % (formula, j), hyps_f, alphas[j], want, fq)
+        amax = alphas[0]
+        for x_ in alphas[1:]:
+            amax = tm.mk_max(amax, x_)          # the largest control exponent (for zexp the first one is clamped to 1e-10, so the last need not be the largest)
+        for i in (-1, 0, 1):
+            hy = hyps_f + [tm.mk_lt(RC, rho[1]), tm.mk_lt(amax, avars[1])]
+            all_raise(ctx, "eval_feat_exp[%s, i=%d]: exponent above the largest control exponent at rho > rhocut raises RuntimeError" % (formula, i), it, hy,
+                      lambda: it.call_method(plan, "eval_feat_exp", [(rho.copy(), sigma.copy(), tau.copy())], {"i": i}), fq, allowed=("RuntimeError",))
+            # and conversely: all exponents within range => no error (the check is not over-eager)
+            hy2 = hyps_f + [tm.mk_le(avars[g], amax) for g in range(NS)]
+            it.hyps = list(hy2)
+            ps = all_paths(it, lambda: it.call_method(plan, "eval_feat_exp", [(rho.copy(), sigma.copy(), tau.copy())], {"i": i}))
+            okp = all(p[0] == "return" or smt.check_sat(hy2 + p[2], ctx.timeout)[0] == "unsat" for p in ps)
+            ctx.holds("eval_feat_exp[%s, i=%d]: exponents within range are accepted" % (formula, i), okp, "", fq)
+        # smooth cutoff: the saturation value handed to the C routine is the largest control exponent
+        plan_s = make_plan(it, stt, 1, nalpha=3, hyps=list(hyps), rhocut=RC, raise_large_expnt_error=False, alpha_formula=formula, use_smooth_expnt_cutoff=True)
+        seen = []
+        libc = pm.ns["libcider"]
+        it.externals["%s.smooth_cider_exponents" % libc.name] = lambda interp, a_ptr, d_ptr, amax_, n_, nd_: seen.append((amax_, n_, nd_))
+        it.hyps = list(hyps_f)
+        try:
+            ps = all_paths(it, lambda: it.call_method(plan_s, "eval_feat_exp", [(rho.copy(), sigma.copy(), tau.copy())], {"i": 0}))
+            val = seen[0][0] if seen else None
+            ctx.holds("eval_feat_exp[%s]: smooth cutoff is called once per evaluation" % formula, len(seen) >= 1 and all(p[0] == "return" for p in ps), "%d calls" % len(seen), fq)
+            if val is not None:
+                ctx.equal("eval_feat_exp[%s]: the smooth cutoff saturates at the largest control exponent" % formula, hyps_f, val, amax, fq)
+                ctx.holds("eval_feat_exp[%s]: smooth cutoff gets the number of points and derivative arrays" % formula, seen[0][1] == NS and seen[0][2] == 3, "%r" % (seen[0][1],), fq)
+        except Unsupported as e:
+            ctx.undecided("eval_feat_exp[%s] smooth cutoff call modelled" % formula, str(e)[:200], fq)
+        finally:
+            it.externals.pop("%s.smooth_cider_exponents" % libc.name, None)
     del it.overrides[SMOD + ":get_cider_exponent"]
     for i in (2, -2, 7):
         all_raise(ctx, "eval_feat_exp feature index %d rejected" % i, it, hyps + [tm.mk_lt(RC, r) for r in rho], lambda: it.call_method(plan, "eval_feat_exp", [(rho.copy(), sigma.copy(), tau.copy())], {"i": i}), fq)
@@ -516,9 +546,160 @@ def unit_reject_shapes(ctx):
         ctx.holds("MappedDFTKernel unknown mode %r is an error at evaluation" % (mode,), r[0] == "raise", str(r[:2]), [XMOD + ":KernelEvalBase.get_descriptors"])
 
 
+# ------------------------------------------------------------------ wrapper => C memory-safety preconditions of the coefficient routines
+C_COEF = "mod_cider/cider_coefs.c"
+# array parameter -> extent (number of doubles) the routine may touch, as a function of its integer arguments (proved from the C source below)
+C_EXTENTS = {
+    "cider_coefs_gto_gq": {"p_ga": "ngrids*nalpha", "dp_ga": "ngrids*nalpha", "exp_g": "ngrids", "alphas": "nalpha"},
+    "cider_coefs_gto_qg": {"p_ag": "ngrids*nalpha", "dp_ag": "ngrids*nalpha", "exp_g": "ngrids", "alphas": "nalpha"},
+    "cider_coefs_vk1_gq": {"p_ga": "ngrids*nalpha", "dp_ga": "ngrids*nalpha", "exp_g": "ngrids", "alphas": "nalpha"},
+    "cider_coefs_vk1_qg": {"p_ag": "ngrids*nalpha", "dp_ag": "ngrids*nalpha", "exp_g": "ngrids", "alphas": "nalpha"},
+    "cider_coefs_spline_gq": {"p_ga": "ngrids*nalpha", "dp_ga": "ngrids*nalpha", "di_g": "ngrids"},
+    "cider_coefs_spline_qg": {"p_ag": "ngrids*nalpha", "dp_ag": "ngrids*nalpha", "di_g": "ngrids"},
+    "cider_ind_etb": {"di_g": "ngrids", "derivi_g": "ngrids", "exp_g": "ngrids"},
+    "cider_ind_zexp": {"di_g": "ngrids", "derivi_g": "ngrids", "exp_g": "ngrids"},
+    "cider_ind_clip": {"di_g": "ngrids", "derivi_g": "ngrids"},
+}
+
+
+def unit_c_extents(ctx):
+    """C side: every access of the coefficient routines to a parameter array lies in [0, extent(int arguments))  (all sizes, engine C)."""
+    from cvc import cparse
+    from cvc.csym import CSym, CUnsupported
+    from contracts import c10
+    from pyvc import intarith
+    tu = cparse.load(C_COEF)
+    for fn, ext in sorted(C_EXTENTS.items()):
+        fq = ["lib/%s:%s" % (C_COEF, fn)]
+        cases = [None] if "gto" not in fn else [0, 1, 2, 3]
+        for fid in cases:
+            s = CSym([tu], footprint=True)
+            args = {p: c10.mk_value(tu, ty, p) for p, ty in tu.params(fn)}
+            if fid is not None:
+                args["featid"] = fid
+            s.hyps = c10.nonneg_hyps(args)
+            try:
+                s.run(fn, args)
+            except CUnsupported as e:
+                ctx.undecided("%s access summary" % fn, str(e)[:200], fq)
+                continue
+            env = {k: v for k, v in args.items() if isinstance(v, tm.T)}
+            assumes = [x[1] for x in s.side if x[0] == "assume"]
+            seen = set()
+            for e in s.events:
+                if e.arr.name not in ext or (e.arr.name, e.kind, e.idx.id) in seen:
+                    continue
+                seen.add((e.arr.name, e.kind, e.idx.id))
+                extent = eval(ext[e.arr.name], {}, env)
+                rng = [c for (qv, lo, hi, st) in e.qvars for c in (tm.mk_le(tm.lift(lo), qv), tm.mk_lt(qv, tm.lift(hi)))]
+                H = list(s.hyps) + assumes + rng + list(e.guards)
+                r_, m_, be = intarith.check_sat_int(H + [tm.mk_not(tm.mk_and(tm.mk_le(tm.ZERO, e.idx), tm.mk_lt(e.idx, extent)))], 10.0)
+                name = "%s%s: %s of %s[%s] stays inside [0, %s)" % (fn, "" if fid is None else "[featid=%d]" % fid, "write" if e.kind == "w" else "read", e.arr.name, tm.show(e.idx, 40), ext[e.arr.name])
+                ctx._rec("obligation", name, vc.Verdict("discharged" if r_ == "unsat" else "refuted" if r_ == "sat" else "undecided", be, witness=m_ if r_ == "sat" else None), fq)
+            touched = set(e.arr.name for e in s.events)
+            ctx.holds("%s%s: every array parameter with a declared extent is accessed (the table is not vacuous)" % (fn, "" if fid is None else "[featid=%d]" % fid),
+                      all(a in touched for a in ext), "untouched: %s" % [a for a in ext if a not in touched], fq)
+
+
+def unit_coef_wrappers(ctx):
+    """Python side: each accepted call of a plan's coefficient wrappers hands the C routine arrays at least as large as the extents above."""
+    it = ctx.interp
+    m = it.load_module(SMOD)
+    pm = it.load_module(PMOD)
+    libc = pm.ns["libcider"]
+    from cvc import cparse
+    tu = cparse.load(C_COEF)
+    seen = []
+    for fn in C_EXTENTS:
+        it.externals["%s.%s" % (libc.name, fn)] = (lambda name: (lambda interp, *a: seen.append((name,) + a)))(fn)
+
+    def check_calls(tag, fq, replay=None):
+        ctx.holds("%s: reaches a C coefficient routine" % tag, len(seen) > 0, "", fq)
+        for call in seen:
+            fn, cargs = call[0], call[1:]
+            params = [p for p, ty in tu.params(fn)]
+            env = {}
+            sizes = {}
+            for pn, v in zip(params, cargs):
+                if hasattr(v, "arr"):
+                    sizes[pn] = int(np.asarray(v.arr).size)
+                elif isinstance(v, (int, np.integer)):
+                    env[pn] = int(v)
+            for an, ex in C_EXTENTS[fn].items():
+                need = eval(ex, {}, env)
+                ctx.holds("%s: %s receives %s with at least %s = %d elements" % (tag, fn, an, ex, need), sizes.get(an, -1) >= need,
+                          "array has %s elements, the routine touches %d (ngrids=%s, nalpha=%s)" % (sizes.get(an), need, env.get("ngrids"), env.get("nalpha")), fq, replay=replay)
+        del seen[:]
+    for version in ("j", "k"):
+        for order in ("gq", "qg"):
+            for pinds in (None, [0], [1]):
+                hyps = []
+                stt = make_settings(it, version, "MGGA", "one", hyps)
+                RC = tm.var("rhocut")
+                hyps.append(tm.mk_lt(tm.ZERO, RC))
+                install_coef_contract(it, 2)       # plan set-up only; the wrappers under test run their real bodies
+                plan = make_plan(it, stt, 1, nalpha=2, hyps=hyps, rhocut=RC, coef_order=order, proc_inds=pinds)
+                del it.overrides[PMOD + ":_get_ovlp_fit_interpolation_coefficients"]
+                it.hyps = list(hyps)
+                arg = sym_array("a", (3,))
+                for i in (-1, 0, 1):
+                    tag = "plan[v%s,%s,proc_inds=%s].get_interpolation_coefficients(i=%d)" % (version, order, pinds, i)
+                    fq = [PMOD + ":NLDFAuxiliaryPlan.get_interpolation_coefficients", PMOD + ":_get_ovlp_fit_interpolation_coefficients", PMOD + ":NLDFAuxiliaryPlan.empty_coefs"]
+                    del seen[:]
+                    try:
+                        it.call_method(plan, "get_interpolation_coefficients", [arg.copy()], {"i": i})
+                    except (Unsupported, PyRaise) as e:
+                        ctx.undecided("%s runs" % tag, str(e)[:200], fq)
+                        continue
+                    check_calls(tag, fq, replay=replay_coef_wrapper(version, order, pinds, i))
+    for fn in C_EXTENTS:
+        it.externals.pop("%s.%s" % (libc.name, fn), None)
+
+
+def replay_coef_wrapper(version, order, pinds, i):
+    def replay(wit):
+        from pyvc import native
+        native.install_shim()
+        import ctypes
+        import ciderpress.dft.plans as P
+        from ciderpress.dft.settings import NLDFSettingsVJ, NLDFSettingsVK
+        th = [1.0, 0.0, 0.03125]
+        fps = [[2.0, 0.0, 0.04], [1.5, 0.0, 0.02]]
+        st = NLDFSettingsVK("MGGA", th, "one", fps, "exponential") if version == "k" else NLDFSettingsVJ("MGGA", th, "one", ["se", "se_ar2"], fps)
+        plan = P.NLDFGaussianPlan(st, 1, 0.01, 1.8, 4, coef_order=order, proc_inds=None if pinds is None else list(pinds))
+        rec = []
+
+        class Spy(object):
+            """stands in for the loaded C library during one call: records the sizes handed over instead of running C (which would write out of bounds)"""
+            def __getattr__(self, name):
+                def f(*a):
+                    rec.append((name, [getattr(x, "value", None) for x in a]))
+                return f
+        real = P.libcider
+        arg = np.linspace(0.1, 1.0, 5)
+        made = []
+        orig_ndarray = np.ndarray
+        P.libcider = Spy()
+        try:
+            p, dp = plan.get_interpolation_coefficients(arg, i=i)
+        finally:
+            P.libcider = real
+        if not rec:
+            return {"reproduced": None, "note": "no C call recorded"}
+        name, vals = rec[-1]
+        ints = [v for v in vals if isinstance(v, int) and not isinstance(v, bool)]
+        # vals: pointers (large ints) then ngrids, nalpha (small ints)
+        small = [v for v in ints if v < 10 ** 6]
+        ngrids, nalpha = small[0], small[1]
+        return {"reproduced": bool(p.size < ngrids * nalpha), "routine": name, "array_elements": int(p.size), "ngrids_passed": ngrids, "nalpha_passed": nalpha,
+                "elements_the_routine_writes": ngrids * nalpha, "local_nalpha": int(plan.local_nalpha)}
+    return replay
+
+
 def units():
     u = [("semilocal", unit_semilocal), ("other-lengths", unit_other_lengths), ("feature-settings", unit_feature_settings),
-         ("reject-params", unit_reject_params), ("reject-plans", unit_reject_plans), ("reject-shapes", unit_reject_shapes)]
+         ("reject-params", unit_reject_params), ("reject-plans", unit_reject_plans), ("reject-shapes", unit_reject_shapes),
+         ("c-extents", unit_c_extents), ("coef-wrappers", unit_coef_wrappers)]
     for v in ("i", "j", "ij", "k"):
         u.append(("nldf-lengths/" + v, unit_nldf_lengths(v)))
     return u
